@@ -11,12 +11,14 @@ from exec import Inconclusive, State
 from values import *
 
 
-def job(sub, runtime, budget, named):
+def job(sub, runtime, budget, named, links=False):
     prog, info = lc.load()
     I = ar.new_interp(prog, budget, runtime)
     lt.install_summary(I, prog, [('stop', None)], runtime)
     st = State()
-    a = ar.Actor(prog, I, st, True, 2, name='the-name' if named else None)
+    a = ar.Actor(prog, I, st, True, 2, name='the-name' if named else None, observer=links)
+    if links:
+        I.pre_start_effect = lambda I, s: a.link_to_observer(s)
     ss = z3.BitVec('sup_status', 8)
     st.assume(z3.ULE(ss, 6))
     st.objs['sup_status'] = {'w': ss}
@@ -34,7 +36,7 @@ def job(sub, runtime, budget, named):
     res = ar.drive(I, st, ccell, 3, 'st')
     sub.absorb(I)
     sub.paths += len(res)
-    tag = '%s.p%d.%s' % (runtime, budget, 'named' if named else 'anon')
+    tag = '%s.p%d.%s%s' % (runtime, budget, 'named' if named else 'anon', '.pre_start_links' if links else '')
     causes = set()
     n_ok = 0
     for k, (s, kind, v, n) in enumerate(res):
@@ -104,12 +106,13 @@ def replay(tag, trace, named, sup_dead):
 
 def run(ctx):
     prog, info = lc.load()
-    insts = [('ActorRuntime', 1, False), ('ActorRuntime', 1, True)] if ctx.tier == 'quick' else \
-        [('ActorRuntime', 1, False), ('ActorRuntime', 1, True), ('ActorRuntime', 2, True), ('ThreadLocalActorRuntime', 1, True)]
+    insts = [('ActorRuntime', 1, False, False), ('ActorRuntime', 1, True, False), ('ActorRuntime', 1, False, True)] if ctx.tier == 'quick' else \
+        [('ActorRuntime', 1, False, False), ('ActorRuntime', 1, True, False), ('ActorRuntime', 2, True, False), ('ThreadLocalActorRuntime', 1, True, False),
+         ('ActorRuntime', 1, False, True), ('ThreadLocalActorRuntime', 1, False, True)]
     for rt in sorted({i[0] for i in insts}):
         lp.encoded(ctx, prog, rt)
     ctx.bounds.update(lp.COMMON_BOUNDS)
-    ctx.bounds['instances'] = [dict(zip(('runtime', 'poll_budget', 'named'), i)) for i in insts]
+    ctx.bounds['instances'] = [dict(zip(('runtime', 'poll_budget', 'named', 'pre_start_links_itself_to_another_actor'), i)) for i in insts]
     ctx.bounds['outside'] += '; cancellation of the start future at an arbitrary await (drop shims) - only the guard Drop itself is exercised (C04.guard); name clashes (C10)'
     ctx.assumptions += lp.COMMON_ASSUMPTIONS
     ports_drop_check(ctx, prog)
